@@ -87,6 +87,11 @@ func (p *Program) replay(prop string, obls []*Obligation, opts checkOpts, dir st
 			break
 		}
 	}
+	for _, o := range obls {
+		for k, v := range o.Hints {
+			rf.Hints[k] = v
+		}
+	}
 	// ground obligations carry their witness directly: language and index go to the harness as hints
 	for _, o := range obls {
 		if o.Kind == "ground" && o.Failed {
